@@ -15,6 +15,26 @@ CHECKS = {
          "premises of C04 (absolute E, matched equal-length cycles) are enabledness rules of the menu"),
  "C05": (E1, "6/C05", "reachable-state exploration to fix-point of the retraction machine composed with every episode placement; depth bounds and parity decided on printers A and B",
          "E-only and firmware cycles are explored separately (never mixed), as the property states"),
+ "C02": (E1, "6/C02", "all histories under the three 'never touches an enabled region' premises x both G90-E settings; every hook result must be None or exactly [cmd]",
+         "arcs must stay >= 2 mm clear; G92 X/Y/Z is exercised in a dedicated scenario (known finding D16)"),
+ "C09": (E2, "6/C09", "all command sequences up to length 2 (3 thorough) over a ~580-command grammar x region sets x in/out of an episode x both entry points; no exception, protocol-conformant result shape",
+         "arc radii capped at 1000 (larger radii are non-termination, not exceptions)"),
+ "C11": (E1, "6/C11", "all interleavings of lifecycle events, settings updates, the three hooks and an API add, to fix-point, against a 40-line lifecycle model; inactive hooks must leave the canonical state unchanged",
+         "interleaving of whole hook/event calls; no preemption inside a call"),
+ "C12": (E1 + "; " + E2, "6/C12", "request histories in all four (active x mayShrink) modes to fix-point plus every ordered pair of a geometry catalogue updated while printing, decided by exact rational containment and sample points",
+         "containment verdicts within 1e-9 of an irrational touch are accepted either way"),
+ "C13": (E1, "6/C13", "all API request histories x users x events to fix-point (list <= 3) against a reference registry: status codes, unchanged state on rejection, exactly one notification per change with the current list",
+         "uuid4 replaced by a per-world counter"),
+ "C15": (E1, "6/C15", "all programs ending inside/outside an episode x all script-hook invocation sequences x end events, to fix-point; contributed prefix executed on reference printer A and compared with B",
+         "prefix lines interpreted as OctoPrint would send them"),
+ "C16": (E2, "6/C16", "complete grid of I/J arcs (start x radius x start angle x sweep x direction) and R-form chords through planArc/computeArcCenterOffsets, plus the same arcs end-to-end through the hook against probe regions",
+         "absolute mm; R-form centre defect D2 is a known finding attributed by exact signature"),
+ "C17": (E2, "6/C17", "complete grid: 629 rectangles (all corner orders, degenerate) x 76 discs x 1/4-lattice points, and all ordered region pairs of all four type combinations, against exact rational geometry",
+         "verdicts that differ only within 1e-12 of a disc border are not reported"),
+ "C18": (E2, "6/C18", "every string over a 16-symbol alphabet up to length 5 (6 thorough) and every concatenation of <= 3 lines from a 40-line catalogue: lossless, stable normalisation, self-validating checksum",
+         "fresh parser per input"),
+ "C19": (E2, "6/C19", "every word sequence up to 2 (3 thorough) words x spellings x spacing: parser pairs vs independent reader, and G1/G92/G28/G2 through the real hook vs reference printer",
+         "numbers without exponent; G92 X/Y/Z value read back sign-agnostically (D16)"),
 }
 PENDING = ["C02", "C06", "C07", "C08", "C09", "C10", "C11", "C12", "C13", "C14", "C15", "C16", "C17", "C18", "C19", "C20"]
 
